@@ -32,6 +32,8 @@ def signature(rec):
         if s.get("ok", True) and rec["kind"] == "replay":
             continue
         o = s["ao"]
+        if s["q"].get("k", "std") != "std" and o["res"] not in ("bypass", "anomaly"):
+            return "bypass-kind-%s-answered-from-cache-or-stored" % s["q"]["k"]
         if o["res"] == "hit":
             d = differs(s["q"], o["owner"])
             if d:
@@ -100,10 +102,14 @@ def run(ctx):
         "S(a) S(b) L(a) L(b) (the spec treats types/classes as uninterpreted symbols)",
     ]
     # ---- leg A
-    vlib.tlc_mc(ctx, SPEC, "CachePlugin_c04.cfg", label="C04 design: 2 names x 3 types x 2 classes x 8 flag sets, <= 3 Exec")
+    if T:
+        vlib.tlc_mc(ctx, SPEC, "CachePlugin_c04.cfg", label="C04 design: 2 names x 3 types x 2 classes x 8 flag sets, <= 3 Exec")
+    else:
+        vlib.tlc_mc(ctx, SPEC, "c04_quick.cfg", cfg_text=cl.cfg(MaxOps="3"),
+                    label="C04 design: 2 names x 2 types x 2 classes x 8 flag sets, <= 3 Exec")
     small = dict(Flags="{0, 1, 2, 4}", MaxOps="2")
     nv = []
-    for f in FIELDS:
+    for f in (FIELDS if T else ["type", "class", "do"]):
         kf = "{" + ", ".join('"%s"' % x for x in FIELDS if x != f) + "}"
         res = vlib.run_tlc(ctx, SPEC, "nv_%s.cfg" % f, cfg_text=cl.cfg(inv="NoSharing", KeyFields=kf, **small),
                            expect_violation=True, workers=1)
@@ -165,7 +171,7 @@ def run(ctx):
     summ = summ[0]
     bad = [r for r in recs if r["kind"] != "summary"]
     log("replayed %d (behaviour x concretization) runs incl. sweeps, %d hits, %d not equal to TLC's expectation" % (
-        summ["n"], summ["hits"], summ["mism"]))
+        summ["n"], summ.get("hits", 0), summ.get("mism", 0)))
 
     # ---- leg C: a seeded sample of all replays in detail + every mismatch; TLC decides
     sample = rng.sample(pairs, 400 if not T else 3000)
@@ -184,10 +190,10 @@ def run(ctx):
             r["mapv"] = maps[r["map"]]
     acc, rej = judge(ctx, det + worst, "C04 replays")
     # liveness of the harness itself: only after leg C, so that a drastic mutant is a VIOLATION, not exit 2
-    if not rej and summ["hits"] < summ["n"] // 50:
-        raise vlib.Infra("dead driver: only %d hits in %d replays" % (summ["hits"], summ["n"]))
+    if not rej and summ.get("hits", 0) < summ["n"] // 50:
+        raise vlib.Infra("dead driver: only %d hits in %d replays" % (summ.get("hits", 0), summ["n"]))
     ctx.cov["evaluations"] = summ["n"]
-    ctx.cov["replay_mismatches"] = summ["mism"]
+    ctx.cov["replay_mismatches"] = summ.get("mism", 0)
     ctx.cov["distinct_nontrivial"] = len({cl.beh_key([s["q"] for s in b["steps"]]) for b in behs
                                            if len({cl.beh_key(s["q"]) for s in b["steps"]}) >= 2})
     ctx.cov["rule"] = ("evaluations = (abstract behaviour x concretization map) replays through the real cache.Exec incl. the "
